@@ -218,4 +218,8 @@ def jobs(tier):
     J.append(Job('experimental.Direct:step_is_targets_own_sample', direct, 'Pbox', ['cuqi.experimental.mcmc._direct:Direct.step'], num=False))
     for geom in ('default', 'mapped', 'KL', 'step', 'image'):
         J.append(Job(f'experimental.Direct:real_target:geometry={geom}', lambda c, g=geom: direct_real_target(c, g), 'B', ['cuqi.experimental.mcmc._direct:Direct.step'], nnum=2))
+    # the conjugate draw is Gamma(shape, rate).sample(): the contract of that callee (the generator receives exactly the parameters of the Gamma's own
+    # density, for every positive shape - also below one) lives with C05 and is part of what C10 relies on
+    from contracts import C05 as _c05
+    J += [j for j in _c05.jobs(tier) if j.id.startswith('Gamma._sample') or j.id.startswith('Gamma.sample')]
     return J
